@@ -1,6 +1,7 @@
 package radixdb
 
 import (
+	"bytes"
 	"errors"
 	"fmt"
 	"sync/atomic"
@@ -41,19 +42,42 @@ func FromObject(obj interface{}) ([]byte, error) {
 	return item.Key, nil
 }
 
+// toIndexKey makes the radix index key of key: every 0x00 byte of key is followed by 0xff and the
+// index key ends with 0x00 0x00. This keeps the byte order of the keys and makes sure no index key is a
+// prefix of another one: with a bare 0x00 terminator the index key of "a" was a prefix of the index key of
+// "a\x00", and the radix iterators return a key that is a prefix of the following ones out of order
+// (reverse scans listed a, a\x00, a\x00\x00 ascending; a forward seek to a\x00 skipped it).
+// The result never shares storage with key.
 func toIndexKey(key []byte) []byte {
 	if key == nil {
 		return nil
 	}
-	key = append(key, '\x00')
-	return key
+	out := make([]byte, 0, len(key)+bytes.Count(key, []byte{0})+2)
+	for _, b := range key {
+		out = append(out, b)
+		if b == 0 {
+			out = append(out, 0xff)
+		}
+	}
+	return append(out, 0, 0)
 }
 
 func extractFromIndexKey(key []byte) []byte {
-	if len(key) == 0 {
+	if len(key) < 2 {
 		return key
 	}
-	return key[:len(key)-1]
+	key = key[:len(key)-2]
+	if bytes.IndexByte(key, 0) < 0 {
+		return key
+	}
+	out := make([]byte, 0, len(key))
+	for i := 0; i < len(key); i++ {
+		out = append(out, key[i])
+		if key[i] == 0 {
+			i++ // the 0xff that follows every 0x00
+		}
+	}
+	return out
 }
 
 // Txn is a transaction against a MemDB.
